@@ -304,6 +304,9 @@ def inst_ctor(cls):
             continue
         out.append(mk(dv, "none"))
     out.append(mk("ok", "none", "dask"))
+    # Dask data that needs the dtype coercion of the constructor: the cast must stay lazy (C09)
+    for dv in ("float32", "float64", "int64"):
+        out.append(mk(dv, "none", "dask"))
     for pv in PERTURB:
         if pv == "none":
             continue
